@@ -462,11 +462,19 @@ class _PcmProxy(object):
     """Stands in for session.qts.portfolio_construction_model: records when construction runs and
     what it appended to the allocation records, also when sizing raises."""
 
-    def __init__(self, real, outcome):
-        self.real, self.outcome = real, outcome
+    def __init__(self, real, outcome, session=None, peek=False):
+        self.real, self.outcome, self.session, self.peek = real, outcome, session, peek
 
     def __call__(self, dt, stats=None):
         self.outcome.pcm_calls.append(minutes(dt))
+        if self.peek and self.session is not None:
+            # what a user's model holding a reference to the session may do at any rebalance: READ the results so far
+            # through the public getters - reading is not allowed to change what the run reports at the end (seed C14-a14)
+            for getter in (self.session.get_equity_curve, self.session.get_target_allocations):
+                try:
+                    getter()
+                except Exception:
+                    pass                 # frames of an empty history may not exist yet
         n0 = len(stats["target_allocations"]) if stats is not None else 0
         try:
             return self.real(dt, stats=stats)
@@ -497,7 +505,8 @@ def run_real(c, rng=None, signals_factory=None, alpha_factory=None, csv_dir=None
                 out.failure = (type(e).__name__, -1)
                 out.extra["construction_error"] = str(e)[:300]
                 return out
-            sess.qts.portfolio_construction_model = _PcmProxy(sess.qts.portfolio_construction_model, out)
+            peek = (c["start"] // 1440 + c["end"] // 1440 + len(c["market"])) % 3 == 0     # a third of the configurations
+            sess.qts.portfolio_construction_model = _PcmProxy(sess.qts.portfolio_construction_model, out, sess, peek)
             sess.sim_engine = EventClock(sess.sim_engine)
             try:
                 with quiet(c):
@@ -586,7 +595,7 @@ class BrokerRecorder(object):
                                             fills=[], marks=[], quote=dict((x, dict(v)) for x, v in cur.items()),
                                             post=self.events[-1]["post"]))
         self.events.append(dict(call=call, err=err,
-                                fills=[dict(pid=f["pid"], oid=self.oid_of.get(f["oid"], 0), asset=f["asset"], qty=int(f["qty"]),
+                                fills=[dict(pid=f["pid"], oid=self.oid_of.get((f["pid"], f["oid"]), 0), asset=f["asset"], qty=int(f["qty"]),
                                             px=mil(f["px"]), comm=mil(f["comm"]), t=minutes(f["t"])) for f in fills],
                                 marks=[dict(pid=m["pid"], asset=m["asset"], px=mil(m["px"]), t=minutes(m["t"])) for m in marks],
                                 quote=quote, post=post))
@@ -620,7 +629,7 @@ class BrokerRecorder(object):
 
         def mk_submit(b, pid, order):
             rec.noid += 1
-            rec.oid_of[order.order_id] = rec.noid
+            rec.oid_of[(pid, order.order_id)] = rec.noid
             return dict(op="submit", pid=pid, asset=order.asset, qty=int(order.quantity)), b.current_dt
 
         @contextlib.contextmanager
